@@ -21,6 +21,21 @@ CLAIMED = {
              "decomposers, fusers, epsilon-snapping passes and Quantinuum/IonQ native passes are decided by the sweep only.",
         technique="Coq proof over regenerated templates (vm_compute reflection into an n-qubit operator semantics) + "
                   "correspondence + numpy differential sweep"),
+    "C06": dict(
+        category="proof",
+        text="Coq theorems (conj_tables_ok, clifford_conjugation_sound, non_clifford_rejected): for the conjugation "
+             "tables, Pauli product table and CLIFFORD_GATE_NAMES regenerated from /repo, the model of "
+             "clifford_gate_conjugation returns (P', c) with U P = c P' U for every supported Clifford kind, every "
+             "placement on distinct qubits of a register of any size and every Pauli string of any length and "
+             "enumeration order; non-Clifford kinds are rejected. The hand model of the loop is tied to the code by "
+             "running it (vm_compute) and the implementation on the same generated cases, plus an AST fingerprint; a "
+             "numpy oracle checks U P U^dagger = c P' and c in {+1,-1} on the same cases.",
+        design_ref="DESIGN.md section 4 (C06)",
+        note="Trusted: Coq kernel+vm_compute; Reals axioms + functional_extensionality_dep; translate/tables.py; "
+             "correspondence harness; documented matrices. Partial: c real (+-1) and rejection of the multi-qubit "
+             "Pauli gate are decided by the sweep, not by a theorem.",
+        technique="Coq proof by induction over the Pauli string on generated tables (vm_compute table obligations "
+                  "lifted through an n-qubit operator semantics) + model/implementation correspondence + numpy sweep"),
 }
 
 NOT_YET = "check not built yet in this revision (see DESIGN.md build order); not claimed"
